@@ -141,8 +141,24 @@ def run(repo, chk):
     q2 = Q.reachable_without(ga, conn[0], avoid_node=lambda n: n in addc)
     chk.ob('a', acc.ref, 'connect is fired only after the socket is registered with the poller and in the client list', q1 is None and q2 is None
            and bool(addr) and bool(addc), loc(acc, conn[0].ast), path=pat.path_lines(q1 or q2) if (q1 or q2) else None, discr='connect-after-bookkeeping')
-    p = Q.escapes(ga, [ga.entry], lambda n: n in addc)
-    chk.ob('a', acc.ref, 'every accepted socket enters the client list', p is None, loc(acc, acc.node), discr='client-listed')
+    # a socket that is not listed must have been closed without any event (the peer had gone before it was accepted)
+    closed_quietly = [n for n in ga.nodes if n.kind in ('stmt', 'with') and any(r == s2 for r, _c in pat.method_calls(n.ast if n.kind == 'stmt' else n.ast, 'close'))]
+    p = Q.escapes(ga, [ga.entry], lambda n: n in addc or n in closed_quietly)
+    fires_ = [n for n in ga.nodes if n.kind == 'stmt' and pat.fire_calls(n.ast)]
+    noisy = any(Q.reaches(c_, f_) for c_ in closed_quietly for f_ in fires_)
+    chk.ob('a', acc.ref, 'every accepted socket enters the client list, or is closed without any event', p is None and not noisy, loc(acc, acc.node), discr='client-listed')
+    # once the socket is listed, _close() will fire disconnect for it: the connect event must then be certain. Anything that can fail
+    # (the peer name of a connection that was reset in the listen queue) is evaluated before the socket is listed
+    risky = [c for c in calls_in(conn[0].ast) if (call_name(c) or '').split('.')[-1] in ('getpeername', 'getsockname', 'fileno')]
+    late = [n for n in ga.nodes if n.kind == 'stmt' and n is not conn[0] and any((call_name(c) or '').split('.')[-1] in ('getpeername', 'getsockname') for c in calls_in(n.ast))
+            and any(Q.reaches(a_, n) for a_ in addc)]
+    chk.ob('a', acc.ref, 'nothing that can fail stands between listing the socket and firing its connect event (no disconnect without a connect)',
+           not risky and not late, loc(acc, conn[0].ast), detail='; '.join(src(c) for c in risky) or '; '.join(n.text for n in late), discr='connect-certain')
+    esc = None
+    for a_ in addc:
+        esc = esc or Q.escapes(ga, [a_], lambda n: n in conn, exits=('exit',), avoid_edge=pat.test_edge(lambda tt, pol: pol == 'F' and src(tt) == acc.params[2]))
+    chk.ob('a', acc.ref, 'a listed socket gets its connect event on every path (except when the caller asked for none: TLS upgrade of a known connection)', esc is None,
+           loc(acc, acc.node), path=pat.path_lines(esc) if esc else None, discr='listed-implies-connect')
     c1 = pat.fires(conn[0].ast, 'connect')[0]
     chk.ob('a', acc.ref, 'connect names the accepted socket', bool(c1.args[0].args) and src(c1.args[0].args[0]) == s2, loc(acc, c1), discr='connect-arg',
            nontrivial=False)
